@@ -20,8 +20,8 @@ ENCODED = ["twisted.conch.ssh.transport:SSHTransportBase.sendPacket",
            "twisted.conch.ssh.transport:SSHTransportBase.dataReceived",
            "twisted.conch.ssh.transport:SSHTransportBase.connectionMade",
            "twisted.conch.ssh.transport:SSHCiphers"]
-BOUNDS = {"quick": {"p": 2, "p2": 1, "v": 1, "ban": 1, "pad": 6, "ms": 4, "cuts": 1},
-          "thorough": {"p": 4, "p2": 3, "v": 2, "ban": 2, "pad": 12, "ms": 20, "cuts": 2}}
+BOUNDS = {"quick": {"p": 2, "p2": 1, "v": 1, "ban": 1, "pad": 6, "ms": 4, "cuts": 1, "lcut": 9},
+          "thorough": {"p": 4, "p2": 3, "v": 2, "ban": 2, "pad": 12, "ms": 20, "cuts": 2, "lcut": 64}}
 B = {}
 BOUNDS_TEXT = ("1-2 packets; message number any 0..255, payload of 0..p (second packet 0..p2) symbolic bytes (all 256 "
                "values); random padding = symbolic bytes (first `pad` bytes of the random pool symbolic, rest 0x99); "
@@ -29,7 +29,7 @@ BOUNDS_TEXT = ("1-2 packets; message number any 0..255, payload of 0..p (second 
                "thorough: two cuts); version exchange: 0-2 banner lines (first one with `ban` symbolic leading bytes), "
                "version line 'SSH-2.0-' + v symbolic bytes, CRLF or LF, one packet behind it, every cut position; "
                "model cipher block size 8 and 16, MAC size 0 and ms, verify outcome symbolic per packet; arbitrary "
-               "4-byte declared length in front of a fixed 48 byte delivery")
+               "4-byte declared length in front of a 32+ms byte delivery (cut at <= lcut)")
 OUTSIDE = ["the real ciphers (AES/3DES in CBC/CTR) and MACs (HMAC-*): C code in cryptography/OpenSSL/hmac, never "
            "executed here; that a real MAC rejects an altered packet is an ASSUMPTION, only the transport's reaction "
            "to verify() returning False is checked",
@@ -348,45 +348,21 @@ def packets(m1: int, p1: str, two: bool, m2: int, p2: str, pad: str, s1: int, s2
 
 
 def _banner(nb, ban, eol):
+    """lines sent before the identification string (RFC 4253 section 4.2: they must not begin with 'SSH-')"""
     if nb == 0:
         return ""
+    if nb == 3:
+        return "a" + ban + "SSH-b" + eol           # 'SSH-' inside a banner line is legal
     text = ban + "anner!" + eol
     if nb == 2:
         text = text + "2nd line" + eol
     return text
 
 
-def _d1(nb, ban, crlf, s1, s2):
-    """known finding: a delivery ends right after a banner line's LF with >= 8 bytes buffered"""
-    eol = "\r\n" if crlf else "\n"
-    text = _banner(nb, ban, eol)
-    pos = 0
-    for line in text.split("\n")[:-1]:
-        pos += len(line) + 1
-        if pos >= 8 and (s1 == pos or s2 == pos):
-            return True
-    return False
-
-
-def _d2(nb, ban, v, crlf, m1, p1, pad, s1, s2):
-    """known finding: bytes of the packet delivered together with the version line's LF contain LF 'SSH-'"""
-    eol = "\r\n" if crlf else "\n"
-    head = _banner(nb, ban, eol) + "SSH-2.0-" + v + eol
-    r = _Rand()
-    r.reset(pad)
-    wire = _ref_packet(m1, p1, r, 8)
-    n = len(head) + len(wire)
-    end = n
-    for c in (s2, s1):
-        if len(head) <= c < end:
-            end = c
-    return "\nSSH-" in wire[:end - len(head)]
-
-
 def version(nb: int, ban: str, v: str, crlf: bool, m1: int, p1: str, pad: str, s1: int, s2: int) -> bool:
     """
-    pre: 0 <= nb <= 2 and 0 <= m1 <= 255
-    pre: len(ban) <= B['ban'] and 1 <= len(v) <= B['v'] and len(p1) <= 1 and len(pad) == 4
+    pre: 0 <= nb <= 3 and 0 <= m1 <= 255
+    pre: len(ban) <= B['ban'] and 1 <= len(v) <= B['v'] and len(p1) <= 1 and len(pad) in (0, 2, 4)
     pre: all(0 < ord(c) < 256 for c in ban + v) and all(ord(c) < 256 for c in p1 + pad)
     pre: "\\n" not in ban and "\\n" not in v and "\\r" not in v and "-" not in v
     pre: nb > 0 or len(ban) == 0
@@ -394,8 +370,8 @@ def version(nb: int, ban: str, v: str, crlf: bool, m1: int, p1: str, pad: str, s
     pre: B['cuts'] == 2 or s1 == 0
     post: _
     """
-    ban = _fix(ban, B['ban'])
-    v = _fix(v, B['v'])
+    ban = _fix(ban, 4)
+    v = _fix(v, 4)
     p1 = _fix(p1, 1)
     pad = _fix(pad, 4)
     eol = "\r\n" if crlf else "\n"
@@ -409,7 +385,19 @@ def version(nb: int, ban: str, v: str, crlf: bool, m1: int, p1: str, pad: str, s
     k1 = _split_cases(len(stream), s1)
     k2 = _split_cases(len(stream), s2)
     rcv = _new()
-    prompt = _deliver(rcv, stream, [k1, k2], [len(stream)])
+    pos = 0
+    prompt = True
+    for c in [k1, k2, len(stream)]:
+        if c <= pos:
+            continue
+        if rcv.transport.disconnecting:
+            break
+        rcv.dataReceived(b(stream[pos:c]))
+        pos = c
+        # the version is known exactly when its line (with the LF) has arrived; the packet is
+        # dispatched exactly when its last byte has arrived
+        if rcv.gotVersion != (pos >= len(head)) or len(rcv.got) != (1 if pos == len(stream) else 0):
+            prompt = False
     api.obs((rcv.got, rcv.seqs, rcv.disc, t(rcv.buf), rcv.gotVersion))
     cover()
     if not prompt or rcv.disc != [] or rcv.transport.disconnecting:
@@ -502,12 +490,12 @@ def badlength(bs: int, ms: int, hdr: str, fill: str, s1: int) -> bool:
     """
     pre: bs in (8, 16) and ms in (0, B['ms'])
     pre: len(hdr) == 4 and len(fill) == 2 and all(ord(c) < 256 for c in hdr + fill)
-    pre: 0 <= s1
+    pre: 0 <= s1 <= B['lcut']
     post: _
     """
     bs = 16 if bs == 16 else 8
     ms = 0 if ms == 0 else B['ms']
-    total = 48
+    total = 32 + ms
     hdr = _fix(hdr, 4)
     fill = _fix(fill, 2)
     plen = ((ord(hdr[0]) * 256 + ord(hdr[1])) * 256 + ord(hdr[2])) * 256 + ord(hdr[3])
@@ -573,7 +561,11 @@ HARNESSES = [
     H(packets, shards=lambda tier: [("not two", a) for a in _len_shards("p1", BOUNDS[tier]["p"])] +
       [("two", a, c) for a in _len_shards("p1", BOUNDS[tier]["p"]) for c in _len_shards("p2", BOUNDS[tier]["p2"])],
       timeout={"quick": 90, "thorough": 1500}),
-    H(version, shards=lambda tier: [("nb == %d" % n, "crlf" if e else "not crlf") for n in (0, 1, 2) for e in (1, 0)],
+    H(version, shards=lambda tier: [("nb == %d" % n,) + c for n in (0, 1, 2, 3)
+                                    for c in ((("len(pad) == 0", "crlf"), ("len(pad) == 0", "not crlf"),
+                                               ("len(pad) == 4 and s2 == 0",)) if tier == "quick" else
+                                              (("len(pad) == 0", "crlf"), ("len(pad) == 0", "not crlf"),
+                                               ("len(pad) == 2 and s1 == 0",), ("len(pad) == 4 and s2 == 0",)))],
       timeout={"quick": 90, "thorough": 1500}),
     H(framing, shards=lambda tier: [("bs == %d" % x, "ms == %d" % y, a)
                                     for x in (8, 16) for y in (0, BOUNDS[tier]["ms"])
@@ -582,22 +574,6 @@ HARNESSES = [
     H(badlength, shards=lambda tier: [("bs == %d" % x, "ms == %d" % y) for x in (8, 16) for y in (0, BOUNDS[tier]["ms"])],
       labels=("end", "huge", "short", "badmod"), timeout={"quick": 90, "thorough": 900}),
 ]
-
-EXCLUDE = {
-    "banner-segment-parsed-as-packet": {"version": "not _d1(nb, ban, crlf, s1, s2)"},
-    "ssh-prefix-in-packet-after-version": {"version": "not _d2(nb, ban, v, crlf, m1, p1, pad, s1, s2)"},
-}
-
-
-def classify(harness_name, args):
-    if harness_name == "version":
-        a = args
-        if _d1(a["nb"], a["ban"], a["crlf"], a["s1"], a["s2"]):
-            return "banner-segment-parsed-as-packet"
-        if _d2(a["nb"], a["ban"], a["v"], a["crlf"], a["m1"], a["p1"], a["pad"], a["s1"], a["s2"]):
-            return "ssh-prefix-in-packet-after-version"
-    return None
-
 
 VECTORS = {
     # test_sendPacketPlain / test_getPacketPlain (twisted/conch/test/test_transport.py): 'A' + b"BCDEFG", 0x99 padding
